@@ -31,7 +31,9 @@ TOL = 1e-10
 
 
 def BOUNDS(tier):
-    return {"templates": list(PROJ), "members": ["block", "distorted", "renum", "(curved)"], "tensor_orders": [0, 1, 2, "voigt"]}
+    return {"templates": list(PROJ), "members": ["block", "distorted", "renum", "(curved)"], "tensor_orders": [0, 1, 2, "voigt"],
+            "stress_history": {"alphabet": "states {A,B} x calls {vector, matrix, gradient, hessian} with the field + {vector, matrix} without a field (10 calls)", "depth": 3 if tier == "quick" else 4,
+                               "observers": ["kirchhoff_stress()", "cauchy_stress()", "stress()", "gradient()"], "bodies": "SolidBody on 2 cells, 3d / plane strain / axisymmetric"}}
 
 
 PROJ = {
@@ -54,6 +56,13 @@ def plan(tier, seed):
     for mk, fk in (("hexahedron", "3d"), ("hexahedron20", "3d"), ("tetra", "3d"), ("quad", "ps"), ("quad", "axi"), ("quad8", "ps")):
         for mat in ("NeoHooke", "tt-mooney", "NearlyIncompressibleBody", "OgdenRoxburgh-softened"):
             cases.append(dict(key=f"stress/{mk}/{fk}/{mat}", op="stress", mesh=mk, fk=fk, mat=mat, seed=seed, cost=3))
+    # histories: every sequence of evaluation calls (states A/B x vector/matrix/gradient/hessian, with and without the
+    # field argument) up to a depth, followed by each stress observer called without a field
+    for mk, fk in (("hexahedron", "3d"), ("quad", "ps"), ("quad", "axi")):
+        for mat in ("NeoHooke", "tt-mooney", "OgdenRoxburgh-softened"):
+            if tier == "quick" and mat != "NeoHooke" and fk != "3d":
+                continue
+            cases.append(dict(key=f"stress-history/{mk}/{fk}/{mat}", op="stress-history", mesh=mk, fk=fk, mat=mat, depth=3 if tier == "quick" else 4, seed=seed, cost=30 if tier == "quick" else 300))
     for mk, fk in (("hexahedron", "3d"), ("quad", "ps"), ("tetra", "3d"), ("hexahedron20", "3d")):
         cases.append(dict(key=f"view/{mk}/{fk}", op="view", mesh=mk, fk=fk, seed=seed, cost=5))
         cases.append(dict(key=f"force-moment/{mk}/{fk}", op="force", mesh=mk, fk=fk, seed=seed))
@@ -242,6 +251,78 @@ def run(case):
             c.close(f"amp={amp}/cauchy", "Cauchy stress = P F^T / det F", body.evaluate.cauchy_stress(field), tau / J)
             c.close(f"amp={amp}/stress", "evaluate.stress = first Piola-Kirchhoff stress", body.evaluate.stress(field), P)
         return c.result(dict(case=case["key"]))
+    if op == "stress-history":
+        mk, fk, mat, depth = case["mesh"], case["fk"], case["mat"], case["depth"]
+        mesh0 = zoo.make(mk, "strip", seed)  # 2 cells
+        if fk == "axi":
+            mesh0 = fem.Mesh(mesh0.points + np.array([0.0, 0.7]), mesh0.cells, mesh0.cell_type)
+        region = zoo.region(mk, mesh0)
+        Fcls = {"3d": fem.Field, "ps": fem.FieldPlaneStrain, "axi": fem.FieldAxisymmetric}[fk]
+
+        def new_field():
+            return fem.FieldContainer([Fcls(region, dim=mesh0.dim)])
+
+        U = {}
+        for name, (amp, sd) in dict(A=(0.15, seed), B=(0.1, seed + 1)).items():
+            f = new_field()
+            set_state(f, mesh0, amp, sd)
+            U[name] = f[0].values.copy()
+        um, sv = material(mat, region)
+        ref = {}
+        for name in "AB":
+            f = new_field()
+            f[0].values[:] = U[name]
+            F = np.array(f.extract()[0], copy=True)
+            P = np.array(um.gradient([F, sv])[0], dtype=float, copy=True)
+            tau = np.einsum("ijqc,kjqc->ikqc", P, F)
+            J = np.linalg.det(np.moveaxis(F, (0, 1), (-2, -1)))
+            b = fem.SolidBody(um, f, statevars=sv)
+            ref[name] = dict(P=P, tau=tau, sigma=tau / J, vec=b.assemble.vector(f).toarray(), mat=fem.SolidBody(um, f, statevars=sv).assemble.matrix(f).toarray())
+        muts = [(st, call) for st in "AB" for call in ("vector", "matrix", "gradient", "hessian")] + [(None, "vector"), (None, "matrix")]
+        observers = ["kirchhoff_stress", "cauchy_stress", "stress", "gradient"]
+        nseq = 0
+        for d_ in range(1, depth + 1):
+            for seq in itertools.product(range(len(muts)), repeat=d_):
+                if muts[seq[0]][0] is None:
+                    continue  # the first call defines the state
+                # the last d_ - 1 calls are replayed for every observer on a fresh body
+                for obs in observers:
+                    field = new_field()
+                    body = fem.SolidBody(um, field, statevars=sv)
+                    cur = None
+                    ok = True
+                    for k in seq:
+                        st, call = muts[k]
+                        if st is not None:
+                            field[0].values[:] = U[st]
+                            cur = st
+                        arg = (field,) if st is not None else ()
+                        r = getattr(body.assemble if call in ("vector", "matrix") else body.evaluate, call)(*arg)
+                        c.trans += 1
+                        if obs == observers[0] and call in ("vector", "matrix"):
+                            want = ref[cur]["vec" if call == "vector" else "mat"]
+                            c.traces += 1
+                            if np.abs(r.toarray() - want).max() > 1e-11 * max(np.abs(want).max(), 1e-12):
+                                ok = False
+                                c.bad(f"seq={'.'.join((m[0] or '-') + m[1][0] for m in (muts[i] for i in seq))}/{call}", f"assembled {call} after this call history differs from a fresh body at the same state", float(np.abs(r.toarray() - want).max()), 0)
+                                break
+                    if not ok:
+                        break
+                    got = getattr(body.evaluate, obs)()
+                    got = got[0] if isinstance(got, (list, tuple)) else got
+                    want = ref[cur][{"kirchhoff_stress": "tau", "cauchy_stress": "sigma", "stress": "P", "gradient": "P"}[obs]]
+                    c.trans += 1
+                    c.traces += 1
+                    c.states += 1
+                    label = ".".join((m[0] or "-") + m[1][0] for m in (muts[i] for i in seq))
+                    err = np.abs(np.asarray(got) - want).max() / max(np.abs(want).max(), 1e-12)
+                    if not err <= 1e-11:
+                        c.bad(f"seq={label}/{obs}()", f"evaluate.{obs}() without a field after the call history {label} (A/B = state passed, - = no field; v/m/g/h = vector/matrix/gradient/hessian) must be the stress of the last state the body was given", float(err), 0, 1e-11)
+                    elif len(set(muts[i][0] for i in seq if muts[i][0])) > 1:
+                        c.nontrivial.append(f"{label}/{obs}")
+                nseq += 1
+        c.outcomes.add(f"depth<={depth}")
+        return c.result(dict(case=case["key"], call_sequences=nseq, alphabet=len(muts), observers=observers))
     if op == "view":
         mk, fk = case["mesh"], case["fk"]
         mesh, region, field = make_field(mk, "renum" if mk in ("hexahedron", "quad", "tetra") else "distorted", fk, seed)
